@@ -214,7 +214,14 @@ func init() {
 			mkRef("", "MIT-or-Apache"), mkRef("", "MIT-Or-Apache"), mkRef("", "MIT-OR-Apache"), mkRef("", "a-and-b"), mkRef("", "a-AND-b"), mkRef("", "x.with.y"), mkRef("", "x.WITH.y"),
 			mkRef("acme-or-sub", "x1"), mkRef("acme-OR-sub", "x1"),
 			// names that end in a character a "trailer" clean-up might strip
-			mkRef("", "v1"), mkRef("", "v1."), mkRef("", "v1-"), mkRef("", "v1.."), mkRef("d.", "v1"), mkRef("d", "v1")}
+			mkRef("", "v1"), mkRef("", "v1."), mkRef("", "v1-"), mkRef("", "v1.."), mkRef("d.", "v1"), mkRef("d", "v1"),
+			// names that END in a suffix word of licence ids, the suffix in two letter cases (a scanner that folds `-ONLY` /
+			// `-OR-LATER` for licences must not touch user-defined names)
+			mkRef("", "acme-EULA-only"), mkRef("", "acme-EULA-ONLY"), mkRef("", "acme-EULA-Only"), mkRef("", "eval-or-later"), mkRef("", "eval-OR-LATER"), mkRef("", "eval-Or-Later"),
+			mkRef("sbom-or-later", "x"), mkRef("sbom-OR-LATER", "x"), mkRef("sbom-only", "x"), mkRef("sbom-ONLY", "x"),
+			// document ids one of which is a prefix of the other, continued by a byte that sorts before ':' (keys compared field
+			// by field instead of as one text)
+			mkRef("spdx-tool", "acme"), mkRef("spdx-tool-1.2", "acme"), mkRef("spdx-tool.1", "acme"), mkRef("spdx-tool1", "acme"), mkRef("spdx-too", "acme"), mkRef("spdx-tool", "acme-1"), mkRef("spdx-tool", "acm")}
 		terms = append(terms, refs...)
 		countN("terms", len(terms))
 		// within-family pairs exhaustively, others sampled
@@ -711,7 +718,7 @@ func init() {
 			if strings.HasSuffix(id, "+") {
 				continue
 			}
-			if _, ok := tablePos(id); ok || thorough() || rng.Intn(3) == 0 {
+			if _, ok := tablePos(id); ok || thorough() || rng.Intn(3) == 0 || isSpecialID[id] {
 				ids = append(ids, id)
 			}
 		}
@@ -911,6 +918,46 @@ func init() {
 			}
 			if len(corrQ) > 50000 {
 				flushCorr()
+			}
+		}
+		// the pairs inside an expression with MANY alternatives (a second evaluation route above a limit must know the same
+		// spellings): on the expression side and on the list side
+		{
+			var gnu []string
+			for _, id := range tblActive {
+				if b := strings.TrimSuffix(id, "-only"); b != id && implValid(b) && implValid(b+"+") {
+					gnu = append(gnu, b)
+				}
+			}
+			for k := 0; k < scale(3, 12) && len(gnu) > 0 && !timeUp("c08 wide"); k++ {
+				b := gnu[rng.Intn(len(gnu))]
+				ex := ""
+				if k%2 == 1 {
+					ex = " WITH " + exc
+				}
+				for _, n := range wideSizes() {
+					if n > 5000 && k > 0 {
+						continue
+					}
+					for _, pr := range [][2]string{{b, b + "-only"}, {b + "+", b + "-or-later"}} {
+						e1, w := wideAnd(pr[0]+ex, n)
+						e2, _ := wideAnd(pr[1]+ex, n)
+						for li, l := range [][]string{append([]string{pr[0] + ex}, w...), append([]string{pr[1] + ex}, w...), append(append([]string{}, w...), "MIT", pr[1]+ex), w} {
+							res.Evaluations++
+							count("wide_context")
+							r1, r2 := implSat(e1, l), implSat(e2, l)
+							if r1.String() != r2.String() {
+								fail(failure{Stream: "oracle", What: "the spellings " + show(pr[0]) + " and " + show(pr[1]) + " give different results inside an expression with " + itoa(n) + " alternatives", Case: &kase{Expr: e1, ExprHex: hx(e1), Allowed: l, Extra: map[string]string{"other_expr": e2}}, Impl: r1.String(), Expected: r2.String()})
+							}
+							if li < 2 {
+								small1 := implSat(pr[0]+ex, l[:1])
+								if r1.String() != small1.String() {
+									fail(failure{Stream: "oracle", What: "Satisfies(" + show(pr[0]+ex) + ", [" + show(l[0]) + "]) changes when satisfied groups making " + itoa(n) + " alternatives are ANDed to it", Case: &kase{Expr: e1, ExprHex: hx(e1), Allowed: l, Extra: map[string]string{"other_expr": e2}}, Impl: r1.String(), Expected: small1.String()})
+								}
+							}
+						}
+					}
+				}
 			}
 		}
 		sample(map[string]interface{}{"pair": []string{"GPL-2.0+", "GPL-2.0-or-later"}, "contexts": []string{"expr-alone", "list-alone", "expr-in-and", "expr-in-or", "list-among"}})
@@ -1552,6 +1599,65 @@ func init() {
 				}
 			}
 		}
+		// '+' (typed, or spelled -or-later) BEHIND one to three terms whose -or-later the scanner rewrites — the text is then shorter
+		// than what the caller wrote by 8 bytes per rewrite — for ids of every length: the term still reaches its own version
+		{
+			rw := []string{"ECL-1.0-or-later", "EPL-1.0-or-later", "MPL-1.0-or-later"}
+			for _, a := range tblActive {
+				if strings.HasSuffix(a, "+") || strings.HasSuffix(a, "-only") || strings.HasSuffix(a, "-or-later") || !implValid(a+"+") {
+					continue
+				}
+				if _, inTable := tablePos(a); !inTable && !thorough() && rng.Intn(2) == 0 {
+					continue
+				}
+				for r := 1; r <= 3; r++ {
+					for _, op := range []string{" OR ", " AND "} {
+						for _, last := range []string{a + "+", a + "-or-later"} {
+							e := strings.Join(rw[:r], op) + op + last
+							l := []string{a}
+							if op == " AND " {
+								l = append(l, "ECL-1.0", "EPL-1.0", "MPL-1.0")
+							}
+							res.Evaluations++
+							count("plus_behind_rewritten_terms")
+							if got := implSat(e, l); got.String() != "true" {
+								fail(failure{Stream: "oracle", What: "'+' behind " + itoa(r) + " rewritten -or-later terms: the term no longer reaches its own version", Case: &kase{Expr: e, ExprHex: hx(e), Allowed: l, Extra: map[string]string{"want": "true"}}, Impl: got.String(), Expected: "true"})
+							}
+						}
+					}
+				}
+			}
+		}
+		// allowed entries that are listed `X-or-later` ids typed in another letter case: the same reach as the listed spelling
+		for _, x := range tblActive {
+			b := strings.TrimSuffix(x, "-or-later")
+			if b == x {
+				continue
+			}
+			for _, sp := range []string{b + "-OR-LATER", b + "-Or-Later", strings.ToLower(b) + "-or-later", strings.ToUpper(x), b + "-or-LATER"} {
+				if !implValid(sp) {
+					continue
+				}
+				others := append([]string{b, b + "-only", "MIT"}, sameFamilyIDs(b)...)
+				for _, y := range others {
+					if strings.HasSuffix(y, "+") || !implValid(y) {
+						continue
+					}
+					res.Evaluations++
+					count("recased_or_later_entries")
+					r1, r2 := implSat(y, []string{sp}), implSat(y, []string{x})
+					if r1.String() != r2.String() {
+						fail(failure{Stream: "oracle", What: "the allowed entry " + show(sp) + " (a listed -or-later id in another letter case) does not reach what " + show(x) + " reaches", Case: &kase{Expr: y, ExprHex: hx(y), Allowed: []string{sp}, Extra: map[string]string{"listed": x}}, Impl: r1.String(), Expected: r2.String()})
+						break
+					}
+					r3, r4 := implSat(sp, []string{y}), implSat(x, []string{y})
+					if r3.String() != r4.String() {
+						fail(failure{Stream: "oracle", What: "the expression " + show(sp) + " (a listed -or-later id in another letter case) is not satisfied as " + show(x) + " is", Case: &kase{Expr: sp, ExprHex: hx(sp), Allowed: []string{y}, Extra: map[string]string{"listed": x}}, Impl: r3.String(), Expected: r4.String()})
+						break
+					}
+				}
+			}
+		}
 		// ids whose texts look like versions of one family that the table does NOT cover (Python-2.0 / Python-2.0.1, …):
 		// '+' gives no reach at all there, whatever the version numbers look like
 		byKey := map[string][]string{}
@@ -1682,6 +1788,23 @@ func init() {
 		res.Exhaustive = true
 	}
 	replays["C11"] = func(k *kase) *failure {
+		if k.Extra != nil && k.Extra["want"] != "" {
+			if r := implSat(k.Expr, k.Allowed); r.String() != k.Extra["want"] {
+				return &failure{Stream: "oracle", What: "'+' reach", Case: k, Impl: r.String(), Expected: k.Extra["want"]}
+			}
+			return nil
+		}
+		if k.Extra != nil && k.Extra["listed"] != "" {
+			x := k.Extra["listed"]
+			r1, r2 := implSat(k.Expr, k.Allowed), implSat(strings.ReplaceAll(k.Expr, k.Expr, map[bool]string{true: x, false: k.Expr}[strings.EqualFold(k.Expr, x)]), k.Allowed)
+			if strings.EqualFold(k.Allowed[0], x) {
+				r2 = implSat(k.Expr, []string{x})
+			}
+			if r1.String() != r2.String() {
+				return &failure{Stream: "oracle", What: "a listed -or-later id in another letter case behaves differently", Case: k, Impl: r1.String(), Expected: r2.String()}
+			}
+			return nil
+		}
 		a := strings.TrimSuffix(k.Allowed[0], "+")
 		b := strings.TrimSuffix(k.Expr, "+")
 		fa, va := versionOf(a)
